@@ -47,6 +47,99 @@ impl<T> Six<T> {
     }
 }
 
+// ---- fixed-size arrays ------------------------------------------------------------------------------------------
+// `[T; N]` has no impl of its own: a method call on an array reaches the `[T]` extension through unsizing. An impl added for
+// `[T; N]` (in any file) would be picked first by method resolution. `FixC` / `FixA` forward EVERY trait method to the array
+// with method-call syntax, so whatever a user's `array.method()` resolves to is what the generic dump functions exercise.
+pub struct FixC<'a, const N: usize>(&'a [Cz; N]);
+impl<'a, const N: usize> CausableReasoning<Cz> for FixC<'a, N> {
+    fn len(&self) -> usize {
+        self.0.len()
+    }
+    fn is_empty(&self) -> bool {
+        self.0.is_empty()
+    }
+    fn to_vec(&self) -> Vec<Cz> {
+        self.0.to_vec()
+    }
+    fn get_all_items(&self) -> Vec<&Cz> {
+        self.0.get_all_items()
+    }
+    fn get_all_causes_true(&self) -> bool {
+        self.0.get_all_causes_true()
+    }
+    fn get_all_active_causes(&self) -> Vec<&Cz> {
+        self.0.get_all_active_causes()
+    }
+    fn get_all_inactive_causes(&self) -> Vec<&Cz> {
+        self.0.get_all_inactive_causes()
+    }
+    fn number_active(&self) -> NumericalValue {
+        self.0.number_active()
+    }
+    fn percent_active(&self) -> NumericalValue {
+        self.0.percent_active()
+    }
+    fn reason_all_causes(&self, data: &[NumericalValue]) -> Result<bool, CausalityError> {
+        self.0.reason_all_causes(data)
+    }
+    fn explain(&self) -> String {
+        self.0.explain()
+    }
+}
+pub struct FixA<'a, T: Assumable, const N: usize>(&'a [T; N]);
+impl<'a, T: Assumable, const N: usize> AssumableReasoning<T> for FixA<'a, T, N> {
+    fn len(&self) -> usize {
+        self.0.len()
+    }
+    fn is_empty(&self) -> bool {
+        self.0.is_empty()
+    }
+    fn get_all_items(&self) -> Vec<&T> {
+        self.0.get_all_items()
+    }
+    fn all_assumptions_tested(&self) -> bool {
+        self.0.all_assumptions_tested()
+    }
+    fn all_assumptions_valid(&self) -> bool {
+        self.0.all_assumptions_valid()
+    }
+    fn number_assumption_valid(&self) -> NumericalValue {
+        self.0.number_assumption_valid()
+    }
+    fn percent_assumption_valid(&self) -> NumericalValue {
+        self.0.percent_assumption_valid()
+    }
+    fn verify_all_assumptions(&self, data: &[NumericalValue]) {
+        self.0.verify_all_assumptions(data)
+    }
+    fn get_all_invalid_assumptions(&self) -> Vec<&T> {
+        self.0.get_all_invalid_assumptions()
+    }
+    fn get_all_valid_assumptions(&self) -> Vec<&T> {
+        self.0.get_all_valid_assumptions()
+    }
+    fn get_all_tested_assumptions(&self) -> Vec<&T> {
+        self.0.get_all_tested_assumptions()
+    }
+    fn get_all_untested_assumptions(&self) -> Vec<&T> {
+        self.0.get_all_untested_assumptions()
+    }
+}
+/// runs `$f` on the `arr` holder: as a fixed-size array `[T; N]` when it has 2, 4, 6 or 8 members, as the slice otherwise
+macro_rules! on_arr {
+    ($fix:ident, $sl:expr, $f:expr) => {{
+        let sl = $sl;
+        match sl.len() {
+            2 => $f(&$fix(<&[_; 2]>::try_from(sl).unwrap())),
+            4 => $f(&$fix(<&[_; 4]>::try_from(sl).unwrap())),
+            6 => $f(&$fix(<&[_; 6]>::try_from(sl).unwrap())),
+            8 => $f(&$fix(<&[_; 8]>::try_from(sl).unwrap())),
+            _ => $f(sl),
+        }
+    }};
+}
+
 fn twice(f: &dyn Fn() -> String) -> String {
     let a = f();
     let b = f();
@@ -63,6 +156,21 @@ macro_rules! each {
         format!(
             "arr:{}|vec:{}|deq:{}|bt:{}|hm:{}|tw:{}",
             $f(&*s.arr),
+            $f(&s.vec),
+            $f(&s.deq),
+            $f(&s.bt),
+            $f(&s.hm),
+            $f(&s.tw)
+        )
+    }};
+}
+
+macro_rules! each_fix {
+    ($fix:ident, $six:expr, $f:expr) => {{
+        let s = &$six;
+        format!(
+            "arr:{}|vec:{}|deq:{}|bt:{}|hm:{}|tw:{}",
+            on_arr!($fix, &*s.arr, $f),
             $f(&s.vec),
             $f(&s.deq),
             $f(&s.bt),
@@ -177,6 +285,10 @@ fn reason_causable<C: CausableReasoning<Cz> + ?Sized>(c: &C, data: &[f64]) -> St
     } else {
         format!("{r1}/{r2}/unstable({d1})({d2})")
     }
+}
+
+fn verify_all<T: Assumable, C: AssumableReasoning<T> + ?Sized>(c: &C, d: &[f64]) {
+    c.verify_all_assumptions(d)
 }
 
 fn data_of(s: &str) -> Vec<f64> {
@@ -304,7 +416,7 @@ impl Interp for C12 {
 
     fn op(&mut self, op: &str, a: &[&str]) -> String {
         match (&self.fam, op) {
-            (Fam::Assume(s), "q") => each!(s, |c| twice(&|| dump_assumable(c))),
+            (Fam::Assume(s), "q") => each_fix!(FixA, s, |c| twice(&|| dump_assumable(c))),
             (Fam::Assume(s), "verify") => {
                 let i: usize = p(a[0]);
                 let d = [p::<i64>(a[1]) as f64];
@@ -320,27 +432,27 @@ impl Interp for C12 {
                 .iter()
                 .map(|x| b(*x))
                 .collect();
-                format!("r={r}|{}", each!(s, |c| twice(&|| dump_assumable(c))))
+                format!("r={r}|{}", each_fix!(FixA, s, |c| twice(&|| dump_assumable(c))))
             }
             (Fam::Assume(s), "verifyall") => {
                 let d = [p::<i64>(a[0]) as f64];
-                s.arr.verify_all_assumptions(&d);
+                on_arr!(FixA, &*s.arr, |c| verify_all(c, &d));
                 s.vec.verify_all_assumptions(&d);
                 s.deq.verify_all_assumptions(&d);
                 s.bt.verify_all_assumptions(&d);
                 s.hm.verify_all_assumptions(&d);
                 s.tw.verify_all_assumptions(&d);
-                each!(s, |c| twice(&|| dump_assumable(c)))
+                each_fix!(FixA, s, |c| twice(&|| dump_assumable(c)))
             }
             (Fam::Infer(s), "q") => each!(s, |c| twice(&|| dump_inferable(c))),
             (Fam::Observe(s), "q") => {
                 let (t, e) = (fl(a[0]), fl(a[1]));
                 each!(s, |c| twice(&|| dump_observable(c, t, e)))
             }
-            (Fam::Cause(s), "q") => each!(s, |c| twice(&|| dump_causable(c))),
+            (Fam::Cause(s), "q") => each_fix!(FixC, s, |c| twice(&|| dump_causable(c))),
             (Fam::Cause(s), "reason") => {
                 let d = data_of(a[0]);
-                each!(s, |c| reason_causable(c, &d))
+                each_fix!(FixC, s, |c| reason_causable(c, &d))
             }
             (Fam::Graph(g, c, t), _) => {
                 let run = |x: &G| -> String {
